@@ -182,7 +182,7 @@ class Const(Dom):
 
 class Harness:
     def __init__(self, name, fn, inputs, bounds="", outside=(), stubs=(), loop_bound=300, witness_cap=60,
-                 timeout_ms=60000, native_setup=None):
+                 timeout_ms=60000, models=None):
         self.name = name
         self.fn = fn
         self.inputs = inputs          # dict name -> Dom  (or callable(tier) -> dict)
@@ -192,6 +192,7 @@ class Harness:
         self.loop_bound = loop_bound
         self.witness_cap = witness_cap
         self.timeout_ms = timeout_ms
+        self.models = dict(models or {})
 
     def input_domains(self, tier):
         d = self.inputs(tier) if callable(self.inputs) else self.inputs
